@@ -451,6 +451,11 @@ func oneConn(w *mon.W, c *mon.Case, getC func(ccfg) *cengine, srv *sview) {
 	defer ce.hc.CloseIdleConnections()
 	nontrivial := n >= 2
 	firstConnOnly, dieSeen := false, false
+	// some applications run their request loop with one Response object they never release
+	var ownResp *protocol.Response
+	if r.Chance(3) {
+		ownResp = &protocol.Response{}
+	}
 	for i := 0; i < n; i++ {
 		a, p := reqs[i], resps[i]
 		req := protocol.AcquireRequest()
@@ -459,7 +464,13 @@ func oneConn(w *mon.W, c *mon.Case, getC func(ccfg) *cengine, srv *sview) {
 		if a.SkipBody {
 			prep = func(resp *protocol.Response) { resp.SkipBody = true }
 		}
-		o := crig.DoWith(ce.hc, req, 20*time.Second, prep)
+		o := crig.DoInto(ce.hc, req, ownResp, 20*time.Second, prep)
+		if ownResp != nil {
+			w.Count("exchanges_into_one_response_object", 1)
+			if a.SkipBody {
+				ownResp.SkipBody = false // the application's wish held for that call only
+			}
+		}
 		protocol.ReleaseRequest(req)
 		w.Count("exchanges", 1)
 		tag := fmt.Sprintf("exchange %d of %d [%s] config %+v", i, n, descr()[i], cf)
